@@ -105,6 +105,8 @@ type Cluster struct {
 	ProduceFaults []string
 	MetaFaults    []string
 	FetchFaults   []string
+	// UrgentMetadata: a pending metadata request is answered before anything else happens (see gx.Actor.Urgent).
+	UrgentMetadata bool
 	// AnswerRank is the default priority class of answer actors.
 	AnswerRank int
 	// MetaVersionCap lowers the metadata response version (0 = use the request's).
@@ -271,7 +273,8 @@ func (cl *Cluster) actors() []gx.Actor {
 		if len(vs) == 0 {
 			continue
 		}
-		acts = append(acts, gx.Actor{Label: "ans:" + r.Conn.Label, Rank: cl.AnswerRank, Variants: vs})
+		_, isMeta := r.Body.(*sarama.MetadataRequest)
+		acts = append(acts, gx.Actor{Label: "ans:" + r.Conn.Label, Rank: cl.AnswerRank, Variants: vs, Urgent: isMeta && cl.UrgentMetadata})
 	}
 	return acts
 }
